@@ -276,6 +276,12 @@ pub(crate) struct World {
     pub debug: bool,
     pub operator_restarts: u32,
     pub startup_refused: bool,
+    /// A `State::write` is executing (from its first line to its return).
+    pub in_write: bool,
+    /// The process of this incarnation has entered its first `State::write` (before that it is in
+    /// the startup read of the state file).
+    pub first_write_begun: bool,
+    pub writes_this_incarnation: u32,
 }
 
 impl World {
@@ -335,6 +341,9 @@ impl World {
             debug: std::env::var("VERIF_DEBUG").is_ok(),
             operator_restarts: 0,
             startup_refused: false,
+            in_write: false,
+            first_write_begun: false,
+            writes_this_incarnation: 0,
             cfg,
         };
         let extra = extra_kill.map(|when| Op::Kill {
@@ -504,9 +513,17 @@ impl World {
     }
 
     /// Called by the root future after every `Poll::Pending`.
+    ///
+    /// Suspensions while the process waits for a file operation (the startup read, anything inside
+    /// `State::write`) are not counted: `tokio::fs` completes on a helper thread, so whether the
+    /// await suspends at all depends on real time. Crash points inside the write are addressed by
+    /// `KillAt::Write` instead.
     pub(crate) fn on_root_pending(&mut self) -> bool {
         if self.killed {
             return true;
+        }
+        if !self.first_write_begun || self.in_write {
+            return false;
         }
         self.polls += 1;
         if self.kill_at_end_of_poll {
@@ -538,6 +555,7 @@ impl World {
         };
         if point == 0 {
             self.writes += 1;
+            self.writes_this_incarnation += 1;
         }
         let nth = self.writes;
         if !(self.cfg.kills && self.faults_on) {
@@ -566,9 +584,16 @@ impl World {
         0
     }
 
+    /// Creation of the guard at the top of `State::write`.
+    pub(crate) fn on_write_begin(&mut self) {
+        self.in_write = true;
+        self.first_write_begun = true;
+    }
+
     /// Drop of the guard created at the top of `State::write` (the write returned or was
     /// cancelled).
     pub(crate) fn on_write_done(&mut self) {
+        self.in_write = false;
         if self.killed {
             return;
         }
